@@ -31,7 +31,8 @@ Subjects ==
 
 \* positions / replacement bytes
 Repl == {0, 1, 2, 127, 128, 255}
-Pat8 == { <<255,255,255,255,255,255,255,255>>, <<0,0,0,0,1,0,0,0>>, <<0,0,0,0,0,0,0,64>>, <<255,255,255,255,255,255,255,127>>,
+\* (2^24 rather than 2^32 as the "large but allocatable" length: hash containers initialise their whole capacity)
+Pat8 == { <<255,255,255,255,255,255,255,255>>, <<0,0,0,1,0,0,0,0>>, <<0,0,0,0,0,0,0,64>>, <<255,255,255,255,255,255,255,127>>,
           <<0,0,0,0,0,0,0,128>> }
 
 \* mutation = [k, p, b, bs]
